@@ -315,7 +315,14 @@ fn exec_steady(sc: &Scenario) -> Report {
         let mut base_ns = t0;
         // optionally the steady progress starts far away from zero (positions above 2^53 are not
         // exact in f64): jump there, then forget the jump
-        if sc.c("base_pos") > 0 {
+        let pb = if sc.c("base_pos") > 0 && sc.c("base_builder") == 1 {
+            // the bar is created at that position (resuming a download, say): not progress
+            base_pos = sc.c("base_pos");
+            pb.with_position(base_pos)
+        } else {
+            pb
+        };
+        if sc.c("base_pos") > 0 && sc.c("base_builder") != 1 {
             sched::advance_quiet(1_000_000);
             let bp = sc.c("base_pos");
             let _ = call(|| {
@@ -327,7 +334,11 @@ fn exec_steady(sc: &Scenario) -> Report {
             base_pos = bp;
             base_ns = sched::clock_ns();
         }
-        let rate = if k > 0 { k as f64 * 1000.0 } else { 1000.0 / m as f64 };
+        // the time unit of the cadence: milliseconds, or microseconds (updates closer together
+        // than the 1 ms interval of the position rate limiter)
+        let unit = if sc.c("unit_ns") > 0 { sc.c("unit_ns") } else { 1_000_000 };
+        let per_s = 1e9 / unit as f64;
+        let rate = if k > 0 { k as f64 * per_s } else { per_s / m as f64 };
         let eps = 1e-7;
         let mut worst: f64 = 0.0;
         let ops = sc.threads.first().cloned().unwrap_or_default();
@@ -338,8 +349,8 @@ fn exec_steady(sc: &Scenario) -> Report {
                     // whole milliseconds (a multiple of m when the rate is one step per m ms)
                     // (at most ~10 days per gap: the virtual clock is 64 bit nanoseconds)
                     let ms = if k > 0 { op.n0().max(1) } else { (op.n0().max(1) % (864_000_000 / m).max(1)).max(1) * m };
-                    sched::advance_quiet(ms * 1_000_000);
-                    let el_ms = (sched::clock_ns() - base_ns) / 1_000_000;
+                    sched::advance_quiet(ms * unit);
+                    let el_ms = (sched::clock_ns() - base_ns) / unit;
                     let p = base_pos + if k > 0 { el_ms * k } else { el_ms / m };
                     if let Err(e) = call(|| {
                         pb.set_position(p);
@@ -379,10 +390,69 @@ fn exec_steady(sc: &Scenario) -> Report {
         }
         // worst relative error in units of 1e-15, for calibrating eps
         r.probe_n("steady_worst_rel_err_e15_max", 0);
-        let w = (worst * 1e15) as u64;
+        let w = (worst.min(1.0) * 1e15) as u64;
         let e = r.probes.entry("steady_worst_rel_err_e15_sum".into()).or_insert(0);
-        *e += w;
+        *e = e.saturating_add(w);
         r.nontrivial = r.probes.get("steady_updates").copied().unwrap_or(0) >= 2;
+        r
+    });
+    finish_report(res, out)
+}
+
+/// steady progress on a bar whose estimator is only fed by a steady ticker (with a ticker
+/// installed the position calls do not tick): hidden or not, the reported rate is the true one
+/// up to the sampling of the ticker
+fn exec_ticked(sc: &Scenario) -> Report {
+    let sc2 = sc.clone();
+    let (res, out) = World::run(Config::sequential(sc.seed), move || {
+        let sc = sc2;
+        let mut r = Report::default();
+        let term = crate::simterm::SimTerm::new(40, 5);
+        let target = if sc.c("visible") == 1 {
+            ProgressDrawTarget::term_like(Box::new(term.clone()))
+        } else {
+            ProgressDrawTarget::hidden()
+        };
+        let pb = ProgressBar::with_draw_target(Some(1_000_000_000), target);
+        let tick_ns = sc.c("tick_ms").max(1) * 1_000_000;
+        let step_ns = sc.c("step_ms").max(1) * 1_000_000;
+        let per_step = sc.c("per_step").max(1);
+        let rate = per_step as f64 * 1e9 / step_ns as f64;
+        if let Err(p) = call(|| pb.enable_steady_tick(Duration::from_nanos(tick_ns))) {
+            r.violate("C09.no_panic", format!("enable_steady_tick panicked: {p}"));
+            return r;
+        }
+        let n = sc.c("steps").max(10);
+        let mut pos = 0u64;
+        for i in 0..n {
+            sched::sleep(step_ns);
+            pos += per_step;
+            if let Err(p) = call(|| pb.set_position(pos)) {
+                r.violate("C09.no_panic", format!("step {i}: set_position panicked: {p}"));
+                break;
+            }
+            // once the ticker has sampled the progress for a while (>= 20 ticks and >= 20 steps)
+            if (i + 1) * step_ns >= 20 * tick_ns && i >= 20 {
+                let ps = pb.per_sec();
+                if !(ps.is_finite() && ps >= 0.5 * rate && ps <= 1.5 * rate) {
+                    r.violate(
+                        "C09.steady_rate",
+                        format!(
+                            "step {i}: {per_step} steps every {} ms for {} ms under a {} ms steady ticker ({}): true rate {rate}/s, per_sec() = {ps}",
+                            step_ns / 1_000_000,
+                            (i + 1) * step_ns / 1_000_000,
+                            tick_ns / 1_000_000,
+                            if sc.c("visible") == 1 { "visible" } else { "hidden" }
+                        ),
+                    );
+                    break;
+                }
+                r.probe("ticked_rate_checks");
+            }
+        }
+        let _ = call(|| pb.disable_steady_tick());
+        r.nontrivial = true;
+        drop(pb);
         r
     });
     finish_report(res, out)
@@ -563,7 +633,7 @@ impl Check for C09 {
         "C09"
     }
     fn rule_text(&self) -> String {
-        "laws: 1..60 updates (gap, position) with gaps log-uniform 1 ms..3 days plus exact cadences, positions up to 1e15, reset_eta/reset_elapsed/reset/backwards seeks/set_length/finish/abandon at random places, bars built with_elapsed, queries at update instants and during stalls; checked: per_sec finite and >= 0 and eta/duration well formed at every instant strictly after creation or the last reset, per_sec <= largest sample rate since the last reset (an abandoned bar: <= the largest sample rate since creation unless the bar was told to forget), successive stall queries non-increasing, eta == remaining/per_sec (0 when finished / unknown length / no progress), duration == elapsed + eta, all at one frozen instant. steady: every update lies exactly on p = p0 + r (t - t0) (k steps per ms with whole-ms gaps, or one step per m ms with gaps multiple of m) with irregular cadence => |per_sec - r| <= 1e-7 r at every update. twins: two bars with different pre-histories are synchronised (same position at the same instant: recorded by both estimators; or - before reset() - not at all; or - before reset_eta - reached by one of them through a position update its estimator never saw because the position rate limiter skipped the tick), forget (reset_eta / reset / backwards seek) and get the same post-history => bit-identical per_sec and eta. The oracle states laws only: a different estimator that satisfies them passes. Non-trivial: laws = >= 2 recorded samples; steady = >= 2 updates; twins = >= 2 post operations. Distinct = distinct scenario hash.".into()
+        "laws: 1..60 updates (gap, position) with gaps log-uniform 1 ms..3 days plus exact cadences, positions up to 1e15, reset_eta/reset_elapsed/reset/backwards seeks/set_length/finish/abandon at random places, bars built with_elapsed, queries at update instants and during stalls; checked: per_sec finite and >= 0 and eta/duration well formed at every instant strictly after creation or the last reset, per_sec <= largest sample rate since the last reset (an abandoned bar: <= the largest sample rate since creation unless the bar was told to forget), successive stall queries non-increasing, eta == remaining/per_sec (0 when finished / unknown length / no progress), duration == elapsed + eta, all at one frozen instant. steady: every update lies exactly on p = p0 + r (t - t0) (k steps per ms with whole-ms gaps, or one step per m ms with gaps multiple of m; in one run out of four the unit is the microsecond, so that updates come closer together than 1 ms) with irregular cadence => |per_sec - r| <= 1e-7 r at every update. twins: two bars with different pre-histories are synchronised (same position at the same instant: recorded by both estimators; or - before reset() - not at all; or - before reset_eta - reached by one of them through a position update its estimator never saw because the position rate limiter skipped the tick), forget (reset_eta / reset / backwards seek) and get the same post-history => bit-identical per_sec and eta. ticked: a bar (hidden or visible) under a steady ticker of 1/10/50 ms is moved along a line by set_position only (with a ticker installed position calls do not feed the estimator: the ticker does); after 20 ticks and 20 steps per_sec must lie within 50 % of the true rate. The oracle states laws only: a different estimator that satisfies them passes. Non-trivial: laws = >= 2 recorded samples; steady = >= 2 updates; twins = >= 2 post operations. Distinct = distinct scenario hash.".into()
     }
     fn assumptions(&self) -> Vec<String> {
         vec![
@@ -598,6 +668,16 @@ impl Check for C09 {
     }
     fn gen(&self, rng: &mut Rng, tier: Tier, _index: u64) -> Scenario {
         let n = rng.range(1, if tier == Tier::Quick { 30 } else { 60 });
+        if rng.chance(1, 25) {
+            let mut sc = Scenario::new("C09", "ticked", rng.next_u64());
+            sc.set("visible", rng.chance(1, 3) as u64);
+            sc.set("tick_ms", *rng.pick(&[1, 10, 50]));
+            sc.set("step_ms", *rng.pick(&[1, 3, 20, 100]));
+            sc.set("per_step", *rng.pick(&[1, 7, 1000]));
+            sc.set("steps", rng.range(30, 120));
+            sc.threads = vec![vec![]];
+            return sc;
+        }
         match rng.weighted(&[6, 2, 2]) {
             0 => {
                 let mut sc = Scenario::new("C09", "laws", rng.next_u64());
@@ -633,6 +713,10 @@ impl Check for C09 {
                 if rng.chance(1, 5) {
                     sc.set("with_elapsed_ns", *rng.pick(&[1_000_000_000, 120_000_000_000, 86_400_000_000_000]));
                 }
+                if rng.chance(1, 4) {
+                    sc.set("unit_ns", 1_000);
+                }
+                sc.set("base_builder", rng.chance(1, 3) as u64);
                 if rng.chance(1, 2) {
                     sc.set("steps_per_ms", *rng.pick(&[1, 2, 7, 1000, 1_000_000]));
                 } else {
@@ -686,6 +770,7 @@ impl Check for C09 {
         match sc.mode.as_str() {
             "steady" => exec_steady(sc),
             "twins" => exec_twins(sc),
+            "ticked" => exec_ticked(sc),
             _ => exec_laws(sc),
         }
     }
